@@ -3,7 +3,7 @@
 From Coq Require Import List ZArith Bool Permutation Sorted.
 From IB Require Import Engine.Val Engine.Ops Engine.AMap Engine.Nodes Engine.Exec Engine.Planner
      Engine.Lang Engine.Denote Engine.Static Engine.Sorted Proofs.EngineElementwise
-     Proofs.EngineSorted Engine.Auto Proofs.EngineAuto.
+     Proofs.EngineElementwiseSpec Proofs.EngineSorted Engine.Auto Proofs.EngineAuto.
 Import ListNotations.
 
 (* the chain the builders produce for a source followed by element-wise transforms: one Stateless
@@ -134,3 +134,165 @@ Example c02_example :
   run_par s steps 3 = Ok (denote s steps) /\
   denote s steps = [VPair (VInt 1) (VInt 103); VPair (VInt 1) (VInt 109)].
 Proof. repeat split; vm_compute; reflexivity. Qed.
+
+Local Open Scope nat_scope.
+
+(* ------------------------------------------------------------------------------------------
+   What "the steps applied one after another" (sem_ops, the right-hand side of
+   c02_chain_as_written) MEANS, stated without reference to how sem_ops is computed.
+   ------------------------------------------------------------------------------------------ *)
+
+(* 1. An element-wise chain is ONE flat_map: there is a single function g from an input element to
+   the list of its outputs, and the result is the outputs of the 1st input, then those of the
+   2nd, ... - nothing depends on neighbours or on position.  That g is necessarily
+   x |-> sem_ops ops [x] (the chain run on the one-element list). *)
+Theorem c02_sem_ops_is_flat_map : forall ops,
+    Forall ew ops -> exists g : val -> list val, forall l, sem_ops ops l = flat_map g l.
+Proof. exact sem_ops_is_flat_map. Qed.
+Theorem c02_sem_ops_pointwise : forall ops l,
+    Forall ew ops -> sem_ops ops l = flat_map (fun x => sem_ops ops [x]) l.
+Proof. exact sem_ops_pointwise. Qed.
+Theorem c02_sem_ops_flat_map_unique : forall ops (g : val -> list val),
+    (forall l, sem_ops ops l = flat_map g l) -> forall x, g x = sem_ops ops [x].
+Proof. exact sem_ops_flat_map_unique. Qed.
+(* with the operators' own element functions gs named (ew_fn o g): the chain's function is their
+   composition in the order written *)
+Theorem c02_sem_ops_flat_map_compose : forall ops gs,
+    Forall2 ew_fn ops gs ->
+    forall l, sem_ops ops l
+              = flat_map (fun x => fold_left (fun acc g => flat_map g acc) gs [x]) l.
+Proof. exact sem_ops_flat_map_compose. Qed.
+
+(* 2. The chain commutes with concatenation and maps [] to []; hence it gives the same result
+   for ANY way of cutting the input into partitions. *)
+Theorem c02_sem_ops_app : forall ops,
+    Forall ew ops ->
+    (forall l1 l2, sem_ops ops (l1 ++ l2) = sem_ops ops l1 ++ sem_ops ops l2) /\
+    sem_ops ops [] = [].
+Proof. exact sem_ops_app_nil. Qed.
+Theorem c02_sem_ops_any_partitioning : forall ops l parts,
+    Forall ew ops -> concat parts = l -> concat (map (sem_ops ops) parts) = sem_ops ops l.
+Proof. exact sem_ops_any_partitioning. Qed.
+
+(* an operator that is a map with function f / a filter with predicate p *)
+Definition map_op (o : dynop) (f : val -> val) : Prop := forall l, op_fn o l = Some (map f l).
+Definition filter_op (o : dynop) (p : val -> bool) : Prop :=
+  forall l, op_fn o l = Some (filter p l).
+(* f1, f2, ..., fn applied in the order written: fn (... (f2 (f1 x))) *)
+Definition apply_in_order (fs : list (val -> val)) (x : val) : val :=
+  fold_left (fun acc f => f acc) fs x.
+(* every predicate holds *)
+Definition all_hold (ps : list (val -> bool)) (x : val) : bool := forallb (fun p => p x) ps.
+
+(* the library's map / map_values / filter / filter_values operators have these shapes *)
+Theorem c02_op_map_is_map : forall i o f uid, map_op (op_map i o f uid) f.
+Proof. exact op_map_is_map. Qed.
+Theorem c02_op_map_values_is_map : forall i o f uid,
+    map_op (op_map_values i o f uid) (on_snd f).
+Proof. exact op_map_values_is_map. Qed.
+Theorem c02_op_filter_is_filter : forall i p uid, filter_op (op_filter i p uid) p.
+Proof. exact op_filter_is_filter. Qed.
+Theorem c02_op_filter_values_is_filter : forall i p uid,
+    filter_op (op_filter_values i p uid) (fun kv => p (vsnd kv)).
+Proof. exact op_filter_values_is_filter. Qed.
+(* and chains of them are element-wise, so c02_chain_as_written applies to them *)
+Theorem c02_maps_are_ew : forall ops fs, Forall2 map_op ops fs -> Forall ew ops.
+Proof. exact maps_are_ew. Qed.
+Theorem c02_filters_are_ew : forall ops ps, Forall2 filter_op ops ps -> Forall ew ops.
+Proof. exact filters_are_ew. Qed.
+
+(* 3. A chain of maps is positional: same length, and the i-th output is the composition of the
+   functions, in the order written, applied to the i-th input (and there is no i-th output
+   exactly when there is no i-th input). *)
+Theorem c02_maps_positional : forall ops fs,
+    Forall2 map_op ops fs ->
+    forall l,
+      sem_ops ops l = map (apply_in_order fs) l /\
+      length (sem_ops ops l) = length l /\
+      forall i, nth_error (sem_ops ops l) i = option_map (apply_in_order fs) (nth_error l i).
+Proof. exact sem_ops_maps_positional. Qed.
+
+(* 4. A chain of filters returns `filter` of the conjunction of the predicates: exactly the
+   elements of the input satisfying every predicate, as a subsequence of the input - the input
+   with some positions erased (mask_select keeps the positions whose mask bit is true), in the
+   original order and multiplicity; and the result does not depend on the order in which the
+   filters were written. *)
+Theorem c02_filters_subsequence : forall ops ps,
+    Forall2 filter_op ops ps ->
+    forall l,
+      sem_ops ops l = filter (all_hold ps) l /\
+      (forall x, In x (sem_ops ops l) <-> In x l /\ forall p, In p ps -> p x = true) /\
+      (length (sem_ops ops l) <= length l)%nat /\
+      exists mask, length mask = length l /\ sem_ops ops l = mask_select val mask l.
+Proof. exact sem_ops_filters_subsequence. Qed.
+Theorem c02_filters_order_irrelevant : forall ops ops' ps ps',
+    Forall2 filter_op ops ps -> Forall2 filter_op ops' ps' -> Permutation ps ps' ->
+    forall l, sem_ops ops l = sem_ops ops' l.
+Proof. exact sem_ops_filters_order_irrelevant. Qed.
+
+Definition ex_triple (v : val) : val := match v with VInt z => VInt (3 * z) | _ => v end.
+Definition ex_succ (v : val) : val := match v with VInt z => VInt (z + 1) | _ => v end.
+Definition ex_odd (v : val) : bool := match v with VInt z => Z.odd z | _ => false end.
+Definition ex_small (v : val) : bool := match v with VInt z => Z.ltb z 10 | _ => false end.
+Definition ex_twice (v : val) : list val := [v; v].
+
+(* 1 + 2 with real operators: a map, a filter and a flat_map; the chain's element function,
+   the result on a list, and two different partitionings of that list *)
+Example c02_flat_map_example :
+  let ops := [op_map 0 0 ex_triple 1; op_filter 0 ex_odd 2; op_flat_map 0 0 ex_twice 3] in
+  let l := [VInt 1; VInt 2; VInt 3; VInt 4; VInt 5] in
+  Forall ew ops /\
+  sem_ops ops [VInt 1] = [VInt 3; VInt 3] /\ sem_ops ops [VInt 2] = [] /\
+  sem_ops ops l = flat_map (fun x => sem_ops ops [x]) l /\
+  sem_ops ops l = [VInt 3; VInt 3; VInt 9; VInt 9; VInt 15; VInt 15] /\
+  concat (map (sem_ops ops) [[VInt 1; VInt 2]; []; [VInt 3; VInt 4; VInt 5]]) = sem_ops ops l /\
+  concat (map (sem_ops ops) [[VInt 1]; [VInt 2; VInt 3; VInt 4]; [VInt 5]]) = sem_ops ops l.
+Proof.
+  intros ops l.
+  assert (Hew : Forall ew ops).
+  { apply (ew_fn_ew ops [fun x => [ex_triple x]; fun x => if ex_odd x then [x] else []; ex_twice]).
+    apply Forall2_cons; [|apply Forall2_cons; [|apply Forall2_cons; [|apply Forall2_nil]]];
+      intros l0; cbn; [rewrite map_as_flat_map | rewrite filter_as_flat_map | ]; reflexivity. }
+  split; [exact Hew|]. split; [reflexivity|]. split; [reflexivity|].
+  split; [apply c02_sem_ops_pointwise; exact Hew|]. split; [reflexivity|].
+  split; apply c02_sem_ops_any_partitioning; try exact Hew; reflexivity.
+Qed.
+
+(* 3 with real operators: x |-> 3x then x |-> x+1, i.e. 3x+1 at every position (not 3(x+1)) *)
+Example c02_maps_example :
+  let ops := [op_map 0 0 ex_triple 1; op_map 0 0 ex_succ 2] in
+  let l := [VInt 1; VInt 2; VInt 3] in
+  Forall2 map_op ops [ex_triple; ex_succ] /\
+  sem_ops ops l = [VInt 4; VInt 7; VInt 10] /\
+  nth_error (sem_ops ops l) 1 = Some (apply_in_order [ex_triple; ex_succ] (VInt 2)) /\
+  apply_in_order [ex_triple; ex_succ] (VInt 2) = VInt 7 /\
+  nth_error (sem_ops ops l) 3 = None.
+Proof.
+  intros ops l.
+  assert (H : Forall2 map_op ops [ex_triple; ex_succ]).
+  { repeat constructor; apply c02_op_map_is_map. }
+  split; [exact H|]. split; [reflexivity|].
+  destruct (c02_maps_positional ops _ H l) as [_ [_ Hn]].
+  split; [rewrite Hn; reflexivity|]. split; [reflexivity|]. rewrite Hn. reflexivity.
+Qed.
+
+(* 4 with real operators: two filters written in either order select the same subsequence *)
+Example c02_filters_example :
+  let ops := [op_filter 0 ex_odd 1; op_filter 0 ex_small 2] in
+  let ops' := [op_filter 0 ex_small 2; op_filter 0 ex_odd 1] in
+  let l := [VInt 11; VInt 3; VInt 4; VInt 3; VInt 1; VInt 13] in
+  Forall2 filter_op ops [ex_odd; ex_small] /\
+  sem_ops ops l = [VInt 3; VInt 3; VInt 1] /\
+  sem_ops ops l = filter (all_hold [ex_odd; ex_small]) l /\
+  sem_ops ops l = mask_select val [false; true; false; true; true; false] l /\
+  sem_ops ops' l = sem_ops ops l.
+Proof.
+  intros ops ops' l.
+  assert (H : Forall2 filter_op ops [ex_odd; ex_small]).
+  { repeat constructor; apply c02_op_filter_is_filter. }
+  assert (H' : Forall2 filter_op ops' [ex_small; ex_odd]).
+  { repeat constructor; apply c02_op_filter_is_filter. }
+  split; [exact H|]. split; [reflexivity|].
+  split; [apply (c02_filters_subsequence ops _ H l)|]. split; [reflexivity|].
+  apply (c02_filters_order_irrelevant ops' ops _ _ H' H). apply perm_swap.
+Qed.
